@@ -36,6 +36,7 @@ REQUIRED = {
         'cases-different-water-level-step': 200,
         'cases-shuffled-rows': 200,
         'cases-with-gap': 500,
+        'cases-with-a-logger-restarted-on-another-clock': 100,
         'loads-via-cli-with-bom': 10,
         'loads-via-subprocess': 2,
         'cases-fixed-offset-zone': 100,
@@ -77,13 +78,22 @@ def gen(rng):
                     i, k = rng.choice(offgrid), 1
             del zt[i:i + k]
             gapped = True
+    restarted = False
+    if len(zt) >= 6 and rng.random() < 0.2:
+        # the logger is restarted after an outage on a clock of its own: every reading after the
+        # gap is offset from the earlier ones (and, when they were on the rainfall grid, from that)
+        i = rng.randint(2, len(zt) - 3)
+        k = rng.randint(1, 3)
+        offset = rng.choice([60, 300, 420, 17, max(1, zstep // 2), max(1, zstep // 3)])
+        zt = zt[:i] + [t + k * zstep + offset for t in zt[i:]]
+        gapped = restarted = True
     if len(zt) < 2:
         zt = [z0, z0 + zstep]
     et_t = [r0 + (i - 2) * rstep for i in range(n + 5)]
     rain = [(t, round(rng.choice([0, 0, rng.uniform(0, 20)]), 3)) for t in rain_t]
     et = [(t, round(rng.uniform(0, 0.5), 4)) for t in et_t]
     z = [(t, round(rng.uniform(-500, 100), 2)) for t in zt]
-    flags = {'misaligned': (z0 - r0) % rstep != 0, 'zstep_differs': zstep != rstep, 'gapped': gapped, 'shuffled': False}
+    flags = {'misaligned': (z0 - r0) % rstep != 0, 'zstep_differs': zstep != rstep, 'gapped': gapped, 'shuffled': False, 'restarted': restarted}
     for L in (rain, et, z):
         if rng.random() < 0.3:
             rng.shuffle(L)
@@ -215,7 +225,7 @@ def check_case(ctx, case, via='function', index=0):
                 rec.hit(name, n)
         fl = case['flags']
         for name, label in (('misaligned', 'cases-misaligned-water-level'), ('zstep_differs', 'cases-different-water-level-step'),
-                            ('shuffled', 'cases-shuffled-rows'), ('gapped', 'cases-with-gap')):
+                            ('shuffled', 'cases-shuffled-rows'), ('gapped', 'cases-with-gap'), ('restarted', 'cases-with-a-logger-restarted-on-another-clock')):
             if fl.get(name):
                 rec.hit(label)
         if zone != 'UTC':
